@@ -242,7 +242,7 @@ def _seg(frame):
 
 DOWN_FAULTS = ("unencodable-value", "oversize-frame", "no-transport-session", "send-while-the-handshake-is-in-progress", "socket-write-fails", "interrupted-during-socket-write", "connection-found-dead-during-write")
 SILENT = ("connection-found-dead-during-write",)          # the caller sees no exception: the disconnect is announced by an event instead
-UP_FAULTS = ("undecryptable-frame", "undecodable-frame", "rejected-stanza", "application-callback-raises", "key-request-for-incoming-message-fails-below",
+UP_FAULTS = ("undecryptable-frame", "undecodable-frame", "undecodable-compressed-frame", "rejected-stanza", "application-callback-raises", "key-request-for-incoming-message-fails-below",
              "incoming-frame-while-session-not-ready", "application-callback-raises-on-keepalive-pong", "keep-alive-times-out")
 
 
@@ -274,13 +274,21 @@ def _iq_layer(insts):
                 return s_
 
 
+def _deflated(frame):
+    """the same stanza as the server sends it compressed: flag byte 2, then the zlib stream of the body"""
+    import zlib
+    return b"\x02" + zlib.compress(frame[1:])
+
+
 def _do_recv_ok(net, top):
     N = SC.N()
     before = len(top.up)
     net.receive(_seg(_frame(N("presence", {"from": "4915901234567@s.whatsapp.net", "type": "available"}))))
     # a frame that arrived while the session was not ready is still queued: it is delivered, in order, with the next one
     late, top.queued_while_not_ready = getattr(top, "queued_while_not_ready", 0), 0
-    return len(top.up) == before + 1 + late
+    # ... and a compressed frame after it
+    net.receive(_seg(_deflated(_frame(N("presence", {"from": "4915907654321@s.whatsapp.net", "type": "available"})))))
+    return len(top.up) == before + 2 + late
 
 
 def _inject_fault(ctx, kind, st, insts, disp, net, noise, top):
@@ -371,6 +379,9 @@ def _inject_fault(ctx, kind, st, insts, disp, net, noise, top):
             net.receive(_seg(b"CORRUPT ciphertext whose tag does not verify"))
         elif kind == "undecodable-frame":
             net.receive(_seg(b"\x00\xf8\x02\xff\xff\xff"))
+        elif kind == "undecodable-compressed-frame":
+            good = _deflated(_frame(N("presence", {"from": "4915901234567@s.whatsapp.net", "type": "available"})))
+            net.receive(_seg(good[:-3] + bytes([good[-3] ^ 0x55]) + good[-2:]))       # a damaged zlib stream (checksum)
         elif kind == "rejected-stanza":
             net.receive(_seg(_frame(N("notification", {"id": "n1", "from": "4915901234567@s.whatsapp.net", "type": "picture", "t": "1400000000"}))))
         elif kind == "application-callback-raises":
